@@ -33,34 +33,49 @@ Fixpoint assoc_str (k : N) (t : list (N * string)) : option string :=
   | (k', v) :: t' => if k =? k' then Some v else assoc_str k t'
   end.
 
+(* which version parser a version number is dispatched to: the generated table of the match arms
+   of parse_packet_by_version, read through the parser names *)
+Inductive vkind := K5 | K7 | K9 | K10.
+Definition kind_of_tag (t : string) : option vkind :=
+  if String.eqb t "v5" then Some K5
+  else if String.eqb t "v7" then Some K7
+  else if String.eqb t "v9" then Some K9
+  else if String.eqb t "ipfix" then Some K10
+  else None.
+Definition version_kind (v : N) : option vkind :=
+  match assoc_str v version_dispatch with
+  | Some t => kind_of_tag t
+  | None => None
+  end.
+
 Definition parse_one (puf : bool) (allow : N -> bool) (s : pstate) (x : bytes) : step :=
   match u_s 2 x with
   | Err k => StErr (PErr (NIncomplete k) x) s
   | Ok v body =>
       if negb (allow v) then StStop
       else
-        match assoc_str v version_dispatch with
-        | Some "v5" =>
+        match version_kind v with
+        | Some K5 =>
             match parse_v5 body with
             | Ok p rest => StOk (PV5 p) rest s
             | Err k => StErr (PErr (NPartial 5 body k) x) s
             end
-        | Some "v7" =>
+        | Some K7 =>
             match parse_v7 body with
             | Ok p rest => StOk (PV7 p) rest s
             | Err k => StErr (PErr (NPartial 7 body k) x) s
             end
-        | Some "v9" =>
+        | Some K9 =>
             match parse_v9 puf (st9 s) body with
             | (Ok p rest, s9) => StOk (PV9 p) rest {| st9 := s9; stx := stx s |}
             | (Err k, s9) => StErr (PErr (NPartial 9 body k) x) {| st9 := s9; stx := stx s |}
             end
-        | Some "ipfix" =>
+        | Some K10 =>
             match parse_ipfix puf (stx s) body with
             | (Ok p rest, sx) => StOk (PIx p) rest {| st9 := st9 s; stx := sx |}
             | (Err k, sx) => StErr (PErr (NPartial 10 body k) x) {| st9 := st9 s; stx := sx |}
             end
-        | _ => StErr (PErr (NUnknownVersion body) x) s
+        | None => StErr (PErr (NUnknownVersion body) x) s
         end
   end.
 
